@@ -65,6 +65,8 @@ type itr struct {
 	worldExt  map[string]string // methods of the translated struct itself kept as state-threading externs
 	effFn     map[string]string // package-level functions (`toIds`, `ecs.TypeID`) kept as state-threading externs; object arguments are dropped
 	inject    map[string]string // concrete type -> injection into an interface-typed location (uninterpreted constructor)
+	earlyItems string           // inside a loop with early returns: the loop state without the recorded result
+	srcExt    map[string]string // calls identified by their source text (`q.world.closeQuery`) kept as state-threading externs writing through their first argument
 	selfRet   bool              // builder methods return their receiver: that result is dropped
 	curSelfRet bool
 	reflectIf string            // extern that stands for an `if` over reflect calls assigning one Boolean
@@ -658,6 +660,13 @@ func (t *itr) expr(e ast.Expr, pre *[]string) string {
 				}
 				return fmt.Sprintf("(decide (%s ≤ %s))", a, b)
 			}
+			if b32, ok := tp.Underlying().(*types.Basic); ok && b32.Kind() == types.Int32 {
+				// signed 32-bit comparison
+				if strict {
+					return fmt.Sprintf("(BitVec.slt %s %s)", a, b)
+				}
+				return fmt.Sprintf("(BitVec.sle %s %s)", a, b)
+			}
 		}
 		return t.fail("unsupported binary operator %s on %s", x.Op, tp)
 	case *ast.CompositeLit:
@@ -867,6 +876,20 @@ func (t *itr) call(x *ast.CallExpr, pre *[]string, wantValue bool) string {
 			}
 		}
 		return t.fail("call of a function-typed field: %s", types.ExprString(x.Fun))
+	}
+	if ext, ok := t.srcExt[types.ExprString(x.Fun)]; ok && len(x.Args) >= 1 {
+		// a call kept outside that acts on the hidden state and writes through its first argument
+		if !t.curEff {
+			return t.fail("state-threading call %s in a function that does not thread the hidden state", types.ExprString(x.Fun))
+		}
+		as := []string{}
+		for _, a := range x.Args {
+			as = append(as, t.expr(a, pre))
+		}
+		rv := t.tmp("r")
+		*pre = append(*pre, fmt.Sprintf("let (ext, %s) := %s ext %s", rv, ext, strings.Join(as, " ")))
+		*pre = append(*pre, t.assignPath(x.Args[0], rv, nil)...)
+		return "()"
 	}
 	if key, ok := t.pkgCall(sel); ok {
 		if ext, ok := t.effFn[key]; ok {
@@ -1413,6 +1436,10 @@ func (t *itr) stateTuple() string {
 }
 
 func (t *itr) ret(val string) string {
+	if t.earlyItems != "" && val != "" {
+		// a `return v` inside a loop that may leave the function: the value is recorded in the loop state
+		return "pure (" + t.earlyItems + ", some " + paren(val) + ")"
+	}
 	if t.loopVar != "" {
 		return "pure " + t.loopVar
 	}
@@ -1787,6 +1814,9 @@ func (t *itr) stmts(list []ast.Stmt, ind string) []string {
 			return append(out, lines...)
 		}
 		if lines, ok := t.searchLoop(x, rest, ind); ok {
+			return append(out, lines...)
+		}
+		if lines, ok := t.incLoop(x, rest, ind); ok {
 			return append(out, lines...)
 		}
 		return append(out, ind+t.fail("unsupported for loop"))
@@ -2357,6 +2387,84 @@ func (t *itr) searchLoop(x *ast.ForStmt, rest []ast.Stmt, ind string) ([]string,
 	return out, true
 }
 
+// incLoop: `for x < n { x++; … }` whose body may change the state and may leave the function (`return v`): a fold over
+// at most n - x rounds (x grows by one per round and nothing else assigns it) whose state carries the value returned
+// so far; a round after a return, or with the condition false, does nothing. Afterwards: the recorded return, or the
+// statements behind the loop.
+func (t *itr) incLoop(x *ast.ForStmt, rest []ast.Stmt, ind string) ([]string, bool) {
+	if x.Init != nil || x.Post != nil || x.Cond == nil || len(x.Body.List) == 0 || len(t.curResT) == 0 || t.recv == "" || t.earlyItems != "" || t.loopVar != "" {
+		return nil, false
+	}
+	cond, ok := x.Cond.(*ast.BinaryExpr)
+	if !ok || cond.Op != token.LSS {
+		return nil, false
+	}
+	inc, ok := x.Body.List[0].(*ast.IncDecStmt)
+	if !ok || inc.Tok != token.INC || types.ExprString(inc.X) != types.ExprString(cond.X) {
+		return nil, false
+	}
+	if t.leanType(t.typeOf(cond.X)) != "BitVec 32" {
+		return nil, false
+	}
+	// the counter is assigned nowhere else in the body (calls that write it are excluded by the caller's configuration)
+	cnt := types.ExprString(cond.X)
+	bad := false
+	for _, s := range x.Body.List[1:] {
+		ast.Inspect(s, func(n ast.Node) bool {
+			switch a := n.(type) {
+			case *ast.AssignStmt:
+				for _, l := range a.Lhs {
+					if types.ExprString(l) == cnt {
+						bad = true
+					}
+				}
+			case *ast.IncDecStmt:
+				if types.ExprString(a.X) == cnt {
+					bad = true
+				}
+			case *ast.ForStmt, *ast.RangeStmt:
+				bad = true
+			}
+			return true
+		})
+	}
+	if bad {
+		return nil, false
+	}
+	out := []string{}
+	pre := []string{}
+	cur := t.expr(cond.X, &pre)
+	lim := t.expr(cond.Y, &pre)
+	for _, l := range pre {
+		out = append(out, ind+l)
+	}
+	st := t.stateTuple()
+	items := strings.TrimSuffix(strings.TrimPrefix(st, "("), ")")
+	rt := paren(strings.Join(t.curResT, " × "))
+	rv := t.tmp("ret")
+	holes := strings.Repeat("_ × ", strings.Count(items, ",")+1)
+	out = append(out, fmt.Sprintf("%slet (%s, %s) ← (List.range (((%s).toInt - (%s).toInt).toNat)).foldlM (fun ((%s, %s) : %sOption %s) _ => do", ind, items, rv, lim, cur, items, rv, holes, rt))
+	bi := ind + "    "
+	out = append(out, fmt.Sprintf("%sif %s.isSome then pure (%s, %s) else", bi, rv, items, rv))
+	cpre := []string{}
+	cv := t.expr(x.Cond, &cpre)
+	for _, l := range cpre {
+		out = append(out, bi+l)
+	}
+	out = append(out, fmt.Sprintf("%sif !(%s) then pure (%s, %s) else", bi, cv, items, rv))
+	savedLoopVar, savedEarly := t.loopVar, t.earlyItems
+	t.loopVar = fmt.Sprintf("(%s, (none : Option %s))", items, rt)
+	t.earlyItems = items
+	out = append(out, t.stmts(x.Body.List, bi)...)
+	t.loopVar, t.earlyItems = savedLoopVar, savedEarly
+	out = append(out, fmt.Sprintf("%s  ) (%s, none)", ind, items))
+	out = append(out, fmt.Sprintf("%smatch %s with", ind, rv))
+	out = append(out, fmt.Sprintf("%s| some r => %s", ind, t.ret("r")))
+	out = append(out, fmt.Sprintf("%s| none =>", ind))
+	out = append(out, t.stmts(rest, ind+"  ")...)
+	return out, true
+}
+
 // readPath reads the value at an lvalue using pre-evaluated indices
 func (t *itr) readPath(e ast.Expr, idx []string, pre *[]string) string {
 	root, steps, ok := t.lvalue(e)
@@ -2588,6 +2696,18 @@ func genPools(repo string, tiny bool) (string, []string) {
 		"World.findArchetypeSlow": true, "World.findOrCreateArchetypeSlow": true, "World.findOrCreateArchetype": true}
 	t.worldExt = map[string]string{"World.findOrCreateArchetype": "findOrCreateF", "World.createArchetypeNode": "createNodeF"}
 	t.tokField = map[string]string{"archNode.neighbors.Get": "nodeNeighborGetF", "archNode.neighbors.Set": "nodeNeighborSetF"}
+	// query iteration (ecs/query.go): the cached-list and node-list walks; the batch walk and the node walk stay parameters
+	t.structs["Query"] = true
+	t.tokens["archetypeAccess"] = true
+	t.worldExt["Query.nextBatch"] = "nextBatchF"
+	t.worldExt["Query.nextNodeOrArchetype"] = "nextNodeF"
+	t.srcExt = map[string]string{"q.world.closeQuery": "closeQueryF"}
+	for _, f := range []string{"Query.nextArchetypeFiltered", "Query.nextArchetype", "Query.Next"} {
+		t.usesEff[f] = true
+	}
+	for _, f := range []string{"Query.setArchetype", "Query.stepArchetype", "Query.nextArchetypeSimple", "Query.nextArchetypeFiltered", "Query.nextArchetype", "Query.Next"} {
+		t.joinIf[f] = true
+	}
 	t.tokens["archetypeData"] = true
 	for k, v := range map[string]string{"archetype.SetPointer": "archSetPointerF", "archNode.CreateArchetype": "nodeCreateArchetypeF",
 		"pagedSlice.Add": "pagedAddF", "archetype.Init": "archInitF", "archNode.SetArchetype": "nodeSetArchetypeF"} {
@@ -2611,7 +2731,8 @@ func genPools(repo string, tiny bool) (string, []string) {
 		t.structs[n] = true
 	}
 	t.view = map[string][]string{"World": {"nodePointers", "filterCache", "locks", "entityPool", "resources", "entities", "targetEntities", "archetypes", "nodes", "relationNodes", "listener", "archetypeData", "registry", "config"},
-		"Config": {"CapacityIncrement", "RelationCapacityIncrement"}}
+		"Config": {"CapacityIncrement", "RelationCapacityIncrement"},
+		"Query": {"nodeArchetypes", "filter", "access", "archetype", "archetypes", "entityIndex", "entityIndexMax", "archIndex", "nodeIndex", "count", "lockBit", "isFiltered", "isBatch"}}
 	t.structs["World"] = true
 	t.tokExt = map[string]string{"archetype.Mask": "archMaskF", "archetype.RelationTarget": "archTargetF", "archetype.HasRelation": "archHasRelationF"}
 	t.ifaceExt = map[string]string{"Matches": "matchesF", "Len": "archsLenF", "Get": "archsGetF", "Subscriptions": "lstSubsF", "Components": "lstCompsF"}
@@ -2619,7 +2740,7 @@ func genPools(repo string, tiny bool) (string, []string) {
 		"archNode.archetypeMap": "nodeArchMapF", "archNode.Archetypes": "nodeArchetypesF", "archetype.IsActive": "archActiveF", "pagedSlice.Get": "pagedGetF", "pagedSlice.Len": "pagedLenF",
 		"archetype.Len": "archLenF", "archetype.HasComponent": "archHasComponentF", "archetype.node": "archNodeF", "archNode.Relation": "nodeRelationF",
 		"archetype.HasRelationComponent": "archHasRelCompF", "archetype.RelationComponent": "archRelCompF", "archNode.Ids": "nodeIdsF", "archetype.GetEntity": "archGetEntityF",
-		"archNode.GetArchetype": "nodeGetArchetypeF", "archNode.Mask": "nodeMaskF", "archetype.Get": "archGetF", "archetype.Components": "archComponentsF"} {
+		"archNode.GetArchetype": "nodeGetArchetypeF", "archNode.Mask": "nodeMaskF", "archetype.archetypeAccess": "archAccessF", "archetype.Get": "archGetF", "archetype.Components": "archComponentsF"} {
 		t.tokExt[k] = v
 	}
 	for k, v := range map[string][2]string{
@@ -2634,6 +2755,10 @@ func genPools(repo string, tiny bool) (string, []string) {
 		"archSetEntityF":       {"eff.archSetEntity", "Ext → Option Nat → BitVec 32 → Entity → Ext × Unit"},
 		"staleF":               {"stale.entityIndex", "Nat → entityIndex"},
 		"archResetF":           {"eff.archReset", "Ext → Option Nat → Ext × Unit"},
+		"nextBatchF":           {"eff.nextBatch", "Ext → Query → Ext × Query × Bool"},
+		"nextNodeF":            {"eff.nextNode", "Ext → Query → Ext × Query × Bool"},
+		"closeQueryF":          {"eff.closeQuery", "Ext → Query → Ext × Query"},
+		"archAccessF":          {"tok.archAccess", "Option Nat → Option Nat"},
 		"createNodeF":          {"eff.createNode", "Ext → World → " + mns + ".Mask → BitVec 8 → Bool → Ext × World × Option Nat"},
 		"nodeNeighborGetF":     {"tok.nodeNeighborGet", "Option Nat → BitVec 8 → Option Nat × Bool"},
 		"nodeNeighborSetF":     {"eff.nodeNeighborSet", "Ext → Option Nat → BitVec 8 → Option Nat → Ext × Unit"},
@@ -2682,7 +2807,7 @@ func genPools(repo string, tiny bool) (string, []string) {
 			fmt.Fprintf(&sb, "def MaskTotalBits : Nat := %s\n\n", k.Val().ExactString())
 		}
 	}
-	for _, s := range []string{"Entity", "entityPool", "bitPool", "lockMask", "componentRegistry", "Resources", "bitSet", "idMap", "intPool", "pointers", "CachedFilter", "cacheEntry", "Cache", "Config", "entityIndex", "EntityDump", "EntityEvent", "World"} {
+	for _, s := range []string{"Entity", "entityPool", "bitPool", "lockMask", "componentRegistry", "Resources", "bitSet", "idMap", "intPool", "pointers", "CachedFilter", "cacheEntry", "Cache", "Config", "entityIndex", "EntityDump", "EntityEvent", "World", "Query"} {
 		t.emitStruct(&sb, s)
 	}
 	funcs := []string{
@@ -2704,6 +2829,7 @@ func genPools(repo string, tiny bool) (string, []string) {
 		"Entity.IsZero", "World.removeArchetype", "World.cleanupArchetype", "World.cleanupArchetypes", "World.RemoveEntity",
 		"World.createArchetype", "World.setRelation", "World.getExchangeMask", "World.exchangeNoNotify", "World.removeEntities", "World.newEntitiesNoNotify", "World.notifyExchange", "World.exchange", "World.NewEntity",
 		"World.findArchetypeSlow", "World.findOrCreateArchetypeSlow", "World.findOrCreateArchetype",
+		"Query.checkNext", "Query.setArchetype", "Query.stepArchetype", "Query.nextArchetypeSimple", "Query.nextArchetypeFiltered", "Query.nextArchetype", "Query.Next",
 	}
 	// which functions need the uninterpreted-function parameters (directly or through a callee)
 	calls := map[string][]string{}
